@@ -119,18 +119,31 @@ class NativeObj:
         return "Native(%r)" % (object.__getattribute__(self, "_real"),)
 
 
-class _NativeClassMeta(type):
-    def __instancecheck__(cls, inst: typing.Any) -> bool:
-        return isinstance(_unwrap(inst), cls._real_cls)  # type: ignore[attr-defined]
+class NativeClass:
+    """Callable stand-in for a third-party class (deliberately not a `type`:
+    CrossHair constructs types by hand, bypassing metaclass __call__)."""
 
-    def __call__(cls, *a: typing.Any, **kw: typing.Any) -> typing.Any:
-        obj = call_native(cls._real_cls, *a, **kw)  # type: ignore[attr-defined]
-        if cls._proxy_instances:  # type: ignore[attr-defined]
-            return NativeObj(obj, cls._wrap_types)  # type: ignore[attr-defined]
+    def __init__(self, real_cls: type, proxy_instances: bool, wrap_types: tuple[type, ...] = ()) -> None:
+        self._real_cls = real_cls
+        self._proxy_instances = proxy_instances
+        self._wrap_types = wrap_types
+        self.__name__ = real_cls.__name__
+
+    def __instancecheck__(self, inst: typing.Any) -> bool:
+        return isinstance(_unwrap(inst), self._real_cls)
+
+    def __subclasscheck__(self, sub: typing.Any) -> bool:
+        # CrossHair evaluates isinstance(x, C) as issubclass(type(x), C)
+        return isinstance(sub, type) and issubclass(sub, self._real_cls)
+
+    def __call__(self, *a: typing.Any, **kw: typing.Any) -> typing.Any:
+        obj = call_native(self._real_cls, *a, **kw)
+        if self._proxy_instances:
+            return NativeObj(obj, self._wrap_types)
         return obj
 
-    def __getattr__(cls, name: str) -> typing.Any:
-        v = getattr(cls._real_cls, name)  # type: ignore[attr-defined]
+    def __getattr__(self, name: str) -> typing.Any:
+        v = getattr(self._real_cls, name)
         if callable(v) and not isinstance(v, type):
             def clsmethod(*a: typing.Any, **kw: typing.Any) -> typing.Any:
                 return call_native(v, *a, **kw)
@@ -139,12 +152,8 @@ class _NativeClassMeta(type):
         return v
 
 
-def native_class(real_cls: type, proxy_instances: bool, wrap_types: tuple[type, ...] = ()) -> type:
-    return _NativeClassMeta(
-        real_cls.__name__,
-        (),
-        {"_real_cls": real_cls, "_proxy_instances": proxy_instances, "_wrap_types": wrap_types},
-    )
+def native_class(real_cls: type, proxy_instances: bool, wrap_types: tuple[type, ...] = ()) -> NativeClass:
+    return NativeClass(real_cls, proxy_instances, wrap_types)
 
 
 class NativeModule:
